@@ -399,6 +399,9 @@ pub struct ValidateOpts<'a> {
     pub decode_limit: u64,
     /// entries (by index) whose payload/CRC consistency is not judged (raw copies of undecodable data)
     pub skip_decode: &'a dyn Fn(usize) -> bool,
+    /// entries whose local header was written by another producer and whose central header was
+    /// re-emitted by the crate (append): local-vs-central agreement and flag rules are not judged
+    pub relax_entry: &'a dyn Fn(usize) -> bool,
 }
 
 /// Appendix D. Returns the list of problems (empty = valid).
@@ -473,6 +476,17 @@ pub fn validate<S: Src + ?Sized>(s: &S, p: &Parsed, o: &ValidateOpts) -> Vec<Str
                 continue;
             }
         };
+        let relaxed = (o.relax_entry)(i);
+        if relaxed {
+            // only the extent is judged
+            if let Some(end) = l.data_start.checked_add(c.csize) {
+                if end > p.cd_start {
+                    bad.push(format!("entry {i}: data extent ends at {end}, beyond the directory start {}", p.cd_start));
+                }
+                extents.push((l.pos, end, i));
+            }
+            continue;
+        }
         if l.name != c.name {
             bad.push(format!("entry {i}: local name ({} bytes) != central name ({} bytes)", l.name.len(), c.name.len()));
         }
